@@ -36,6 +36,8 @@ def gen_cases(tier, rng):
         nsn = sum(1 for t in toks if t == "S")
         for j in range(rng.randrange(2, 6)):
             snap = "-" if nsn == 0 or rng.random() < 0.5 else str(rng.randrange(nsn))
+            if snap == "-":
+                toks.append("X")      # the iterator model is run on this dump with the same script
             toks.append("Jj%d:%s" % (j, snap))
             toks.append("Kj%d:%s" % (j, dbh.iter_ops(rng, nkeys, rng.randrange(5, 40))))
             if rng.random() < 0.5:
@@ -56,6 +58,7 @@ def gen_cases(tier, rng):
         if len(chunk) == 36:
             toks = ["e%d" % k, base]
             for j, sc in enumerate(chunk):
+                toks.append("X")
                 toks.append("Jq%d:-" % j)
                 toks.append("Kq%d:%s" % (j, sc))
                 toks.append("Qq%d" % j)
